@@ -72,6 +72,11 @@ def pool(ctx):
     op({"config": {"mnemonics-full-match": True, "valid_addr_range": {"min": "zz", "max": "10"}}, "pattern": ["mov"]})
     op({"config": {"sections": [".nosuch"]}, "pattern": ["ret"]}, text=None, binary_path=obj)
     op({"pattern": [{"$or": []}]})
+    # a `config:` key that is present but null / empty (every entry commented out): whatever the code makes of it, it makes
+    # the same of it after any history
+    op({"config": None, "pattern": [{"$or": ["mov", {"call": ["401020"]}]}]})
+    op({"config": {}, "pattern": [{"$or": ["mov", {"call": ["401020"]}]}]})
+    op({"config": None, "pattern": [{"call": ["valid_addr"]}]}, addr_only=True)
     return ops
 
 
@@ -90,7 +95,7 @@ def model_run(ctx, op, obj_texts):
 
 def run(ctx, factor):
     g, rep = ctx.g, ctx.report
-    rep.rule = ("a pool of 26 complete operations on two different listings and one object file (differing in full-match flags, sections, address ranges, instruction/"
+    rep.rule = ("a pool of 29 complete operations on two different listings and one object file (differing in full-match flags, sections, address ranges, instruction/"
                 "operand captures, in-file and extra-file macros, assembly/binary input, modes; five of them failing, some "
                 "after having written part of the config) ; random sequences of 2-6 (thorough: up to 10) operations run in "
                 "ONE interpreter, every result compared with the same operation run alone in a FRESH interpreter, and with "
